@@ -20,6 +20,8 @@ def case_name(c):
         s += "/codes=" + ",".join(map(str, c["codes"]))
     if c["mask"]["kind"] == "bool":
         s += "/bits=" + "".join("1" if b else "0" for b in c["mask"]["bits"])
+    if c.get("via"):
+        s = "GroupBy." + s + ("/key chunks=" + "+".join(map(str, c["lengths"])) if c.get("lengths") else "/contiguous key")
     return s
 
 
@@ -30,6 +32,11 @@ def build(case, inp):
         d["codes"] = list(case["codes"])
         if inp.concrete is None:
             inp.vars["k"] = ("const", list(case["codes"]), "int64")
+    elif case.get("lengths"):
+        from .gbcore import ChunkedState
+        st = ChunkedState(inp, case["lengths"], [min(L, G) for L in case["lengths"]], G)
+        d["codes"] = st.global_codes()
+        d["state"] = st
     else:
         d["codes"] = inp.codes("k", N, G)
     if case["op"] != "cumcount":
@@ -42,7 +49,31 @@ def build(case, inp):
     return d
 
 
+def _gb_state(E, case, d):
+    from .gbcore import make_gb
+    if case.get("lengths"):
+        st = d["state"]
+        return make_gb(E, case["G"], chunks=st.chunk_arrays(), pointers=st.pointer_arrays())
+    return make_gb(E, case["G"], codes=A(d["codes"], "int64").tag("state:_group_ikey"))
+
+
+def call_gb(E, case, d):
+    """the public GroupBy.cumsum/cumcount/cummin/cummax on a directly constructed state; cuts as in gbcore.install_cuts"""
+    from ..models import FakeSeries
+    gb = _gb_state(E, case, d)
+    dt = real_np.dtype(case["dtype"])
+    mask = A(d["mask"], "bool").tag("input:mask") if "mask" in d else None
+    if case["op"] == "cumcount":
+        out = gb.cumcount(mask)
+    else:
+        vals = A(d["values"], dt).tag("input:values")
+        out = getattr(gb, case["op"])(vals, mask, case.get("skip_na", True))
+    return out.arr if isinstance(out, FakeSeries) else out
+
+
 def call(E, case, d):
+    if case.get("via"):
+        return call_gb(E, case, d)
     nbm = E["gbnumba"]
     dt = real_np.dtype(case["dtype"])
     codes = A(d["codes"], "int64").tag("input:group_key")
@@ -161,8 +192,24 @@ def signature(case, labels):
 
 
 # ------------------------------------------------------------------ real code
+def real_gb_of(case, conc):
+    from . import c03 as C3
+    if case.get("lengths"):
+        loc = [conc[f"l{c}_"] for c in range(len(case["lengths"]))]
+        ptr = [conc[f"p{c}_"] for c in range(len(case["lengths"]))]
+        return C3.real_gb(case["G"], chunks=loc, pointers=ptr)
+    return C3.real_gb(case["G"], codes=[int(x) for x in conc["k"]])
+
+
 def real_call(case, conc):
     import groupby_lib.groupby.numba as rnb
+    if case.get("via"):
+        gb = real_gb_of(case, conc)
+        mask = real_np.array(conc["m"], dtype=bool) if case["mask"]["kind"] == "bool_sym" else None
+        if case["op"] == "cumcount":
+            return real_np.asarray(gb.cumcount(mask))
+        vals = np_values(to_float_cells(conc["v"]), case["dtype"])
+        return real_np.asarray(getattr(gb, case["op"])(vals, mask, case.get("skip_na", True)))
     codes = real_np.array(conc["k"], dtype="int64")
     mk = case["mask"]["kind"]
     mask = None
